@@ -21,6 +21,7 @@ use crate::config::Config;
 use crate::dic::grammar::Grammar;
 use crate::plugin::connect_cost::EditConnectionCostPlugin;
 use crate::prelude::*;
+use crate::util::check_params::CheckParams;
 
 /// A edit connection cost plugin for inhibiting the connections.
 ///
@@ -58,10 +59,14 @@ impl EditConnectionCostPlugin for InhibitConnectionPlugin {
         &mut self,
         settings: &Value,
         _config: &Config,
-        _grammar: &Grammar,
+        grammar: &Grammar,
     ) -> SudachiResult<()> {
         let settings: PluginSettings = serde_json::from_value(settings.clone())?;
         let inhibit_pairs = settings.inhibitPair;
+        for (left, right) in &inhibit_pairs {
+            grammar.check_left_id(*left)?;
+            grammar.check_right_id(*right)?;
+        }
         self.inhibit_pairs = inhibit_pairs;
         Ok(())
     }
